@@ -169,16 +169,16 @@ def registry():
             assumptions=['affine index domain with Fourier-Motzkin style bound elimination; violations are reported only with a concrete witness valuation'])
     if S is not None and G is not None:
         reg['C10'] = dict(
-            rules=[S.rule_cmp, S.rule_shape, lambda ctx: S.rule_base(ctx, None, 'C10.base'), S.rule_dispatch, S.rule_linalg_kinds, S.rule_kinds, S.rule_kernel_dtype],
+            rules=[S.rule_cmp, S.rule_shape, lambda ctx: S.rule_base(ctx, None, 'C10.base'), S.rule_dispatch, S.rule_linalg_kinds, S.rule_kinds, S.rule_kernel_dtype, S.rule_shape_arg],
             explanation='Static decision of the NumPy-agreement clauses that are visible in the shape of the code: comparison methods return '
                         'numpy.all(<own operator>(zeroth coefficients)) (C10.cmp); shape/size/ndim/len read one coefficient slice '
                         '(C10.shape); every kernel computes its zeroth coefficient with the NumPy/SciPy function it is named after '
                         '(C10.base); generated dispatchers forward (*args, **kwargs) unchanged to the class method or to an existing '
                         'NumPy/SciPy function of the same name, hand-written dispatchers call the function of their own name and forward '
-                        'every parameter (C10.dispatch). NOT decided: equality of values/shapes with NumPy for all arguments.',
+                        'every parameter (C10.dispatch); zeros/ones wrap every integer scalar shape NumPy accepts before concatenating it to (D, P) (C10.shape-arg). NOT decided: equality of values/shapes with NumPy for all arguments.',
             assumptions=['the installed numpy/scipy namespaces are consulted for the existence of fallback functions (no algopy code is run)'])
         reg['C13'] = dict(
-            rules=[S.rule_index, S.rule_view, S.rule_map, G.rule_grade('C13'), S.rule_sym, S.rule_alloc],
+            rules=[S.rule_index, S.rule_view, S.rule_map, G.rule_grade('C13'), S.rule_sym, S.rule_alloc, S.rule_shape_arg],
             explanation='Static decision of the slice-wise/view clauses: the index prefixes of __getitem__/__setitem__ (C13.index); view operations '
                         'return storage of their argument with no copy on the path, value operations return fresh data (C13.view, E1 alias '
                         'analysis); trace/tril/triu/tile/fft/ifft apply the NumPy function of their name to slice [d,p] in full d,p loops and '
